@@ -275,6 +275,8 @@ def onEvent (s : S) (tid point : String) (ev : String) : S :=
         else s.fail s!"Sync returned {cls} but the model is in {repr o.st}"
       | .returned b => if b == (cls == "closed") then s else s.fail s!"Sync returned {cls}; the model says serverClosed = {b}"
       | _ => s.fail s!"Sync returned {cls} but the model is in {repr o.st}"
+  | ["shutdown", "panic"] =>
+    if s.viol.isNone then { s with viol := some "a panic escaped from Shutdown into its caller (the remaining channels are not closed)" } else s
   | ["shutdown", "ret", x] =>
     let s := { s with shutRet := true, ctxObs := x == "1" }
     s.cglobal .closeAllEnd "Shutdown returns"
